@@ -30,14 +30,20 @@ def jobs_sev(tier):
     return out
 
 
+def jobs_rf(tier):
+    return [{"name": "rangefaults-s%d" % n, "func": "VerifHarness_RangeFaults", "params": {"nslices": n}, "unwind": 200,
+             "reach": ["end", "fault", "ok"]} for n in ((2, 3) if tier == "quick" else (2, 3, 4))]
+
+
 PROP = {
     "level_text": "Bounded symbolic model checking of pint's real failover code: for 1..3 upstreams, every assignment of the property's nine fault modes, symbolic HTTP status codes inside each fault's class and symbolic JSON errorType/error atoms, the solver shows that the five FailoverGroup retry loops contact upstreams exactly as the property's table says, return the first non-unavailable outcome unchanged, and that checks.problemFromError degrades an all-unavailable outcome to Warning (Bug iff required).",
     "level_note": "Faults are mapped to Go error/response shapes by the contract table stated in harness/C15/failover.go (trusted). The per-upstream Prometheus.Query/... methods are cut at the keyed lock + worker channel and hand the query to the real processJob; net/http, encoding/json tokenisation and yaml are cut; github.com/prymitive/current, tryDecodingAPIError, stream*, decodeError, IsUnavailableError run for real. errors.Is/As are engine models walking the concrete Unwrap chain.",
     "runs": [{"pkg": "./internal/promapi", "harness": ["harness/C15/failover.go"], "intmode": True, "jobs": jobs},
-             {"pkg": "./internal/checks", "harness": ["harness/C15/severity.go"], "aux": {"./internal/promapi": ["harness/C15/failover.go"]}, "intmode": True, "jobs": jobs_sev}],
+             {"pkg": "./internal/checks", "harness": ["harness/C15/severity.go"], "aux": {"./internal/promapi": ["harness/C15/failover.go"]}, "intmode": True, "jobs": jobs_sev},
+             {"pkg": "./internal/promapi", "harness": ["harness/C15/rangefaults.go"], "intmode": True, "jobs": jobs_rf}],
     "bounds": {"upstreams": "quick: 1..2 for every endpoint (3 for query); thorough: 1..3 everywhere, both runs", "fault modes": 9, "endpoints": 5,
                "HTTP status": "symbolic inside the fault's class (2xx, 4xx without 404, 404, 5xx)", "errorType": "atom over 10 names + 1 anonymous", "error text": "3 concrete texts"},
     "assumptions": ["the contract table in harness/C15/failover.go is what net/http hands to pint for each fault mode",
                     "one request per FailoverGroup (no state carried between requests except the unsupported-API flags, which start clear)"],
-    "outside": ["the keyed lock and worker pool (C14)", "RangeQuery slicing (C13)", "net/http transport behaviour beyond the contract table"],
+    "outside": ["the keyed lock and worker pool (C14)", "RangeQuery slicing of successful answers (C13); its fan-in of slice FAILURES is the third run here (2..3 slices, thorough 4; outcome per slice ok/cancelled/timeout/refused; caller's context alive)", "net/http transport behaviour beyond the contract table"],
 }
